@@ -11,7 +11,7 @@ import tempfile
 import time
 
 from vt import env
-from vt.rec import Rec, jsonable, h64
+from vt.rec import Rec, ShardDeadline, jsonable, h64
 
 KNOWN_FILE = os.path.join(env.VERIF, 'known_findings.json')
 NCPU = 16
@@ -41,9 +41,12 @@ def run_shard_inproc(prop, tier, seed, shard, nshards, out):
     env.load_repo()
     hs = os.environ.get('PYTHONHASHSEED', 'random')
     rec = Rec(prop, tier, seed, shard, nshards, hs)
+    rec.flush_path = out + '.partial'
     mod = driver(prop)
+    rec.deadline = time.time() + 0.7 * mod.TIMEOUT[tier]
     rng = random.Random('%s/%s/%d/%d' % (prop, tier, seed, shard))
     err = None
+    truncated = False
     try:
         from vt.props import common
         rc = common.replay_case()
@@ -55,11 +58,14 @@ def run_shard_inproc(prop, tier, seed, shard, nshards, out):
             # one interpreter per check also runs the repository's own tests under the same monitors
             if rc is None and hasattr(mod, 'install') and shard == nshards - 1 and getattr(mod, 'REPO_TESTS', True) and (tier == 'thorough' or os.environ.get('VT_REPO_TESTS') == '1'):
                 common.run_repo_tests(rec, seed)
+    except ShardDeadline:
+        truncated = True
     except BaseException as e:      # the harness itself failed: inconclusive, never a verdict
         import traceback
         err = traceback.format_exc()
     d = rec.dump()
     d['harness_error'] = err
+    d['truncated'] = truncated
     with open(out, 'w') as f:
         json.dump(d, f)
     return 0
@@ -123,6 +129,13 @@ def run_property(prop, tier, seed, replay=None):
                     p.kill()
                     p.wait()
                     failures.append('shard %d: wall-clock watchdog (%ds) fired' % (job[0], limit))
+                    # what the monitors of that interpreter had observed before it was killed still counts (a recorded
+                    # violation is a real observation; the run as a whole can no longer be 'held')
+                    try:
+                        with open(out + '.partial') as f:
+                            results.append(json.load(f))
+                    except (OSError, ValueError):
+                        pass
                 else:
                     still.append((p, job, out, ts))
                 continue
@@ -141,6 +154,8 @@ def run_property(prop, tier, seed, replay=None):
                 d = json.load(f)
             if d.get('harness_error'):
                 failures.append('shard %d: harness error: %s' % (job[0], d['harness_error'][-3000:]))
+            if d.get('truncated'):
+                failures.append('shard %d: workload truncated after 70 %% of the wall-clock budget (%d s)' % (job[0], limit))
             results.append(d)
         running = still
 
